@@ -136,9 +136,28 @@ class FnCtx:
         self.failed_names = set()
         self.callsites_seen = set()
         self.trusted_clauses = set()
+        self.call_patterns = set(self.scan_call_patterns())
         self.rel = fnkey.split('::', 1)[1]
         self.pkg = fnkey.split('::', 1)[0]
         self.short = self.pkg.rsplit('/', 1)[-1] + '.' + self.rel
+
+    def scan_call_patterns(self):
+        """identifiers used as ncalls(...) arguments anywhere in the contract"""
+        out = set()
+
+        def walk(e):
+            if isinstance(e, (tuple, list)):
+                if len(e) >= 3 and e[0] == 'call' and e[1] == ('id', 'ncalls') and e[2] and e[2][0][0] == 'id':
+                    out.add(e[2][0][1])
+                for x in e:
+                    walk(x)
+        c = self.contract
+        for cl in list(c.requires) + list(c.ensures) + [x for (_, x) in c.calls]:
+            walk(cl.expr)
+        for ls in c.loops.values():
+            for cl in ls.invariants:
+                walk(cl.expr)
+        return out
 
     def solver_add(self, f):
         self.solver.add(f)
